@@ -184,7 +184,83 @@ def skip_pattern_bounded(seed):
             'evaluations': n, 'failures': fails}
 
 
-QUICK_BOUNDED = [extraction_small_documents, skip_pattern_bounded]
+def include_graphs_bounded(seed):
+    """second half of the property on the real start-up code of the script
+    (props/shellenv.py: module-level statements of shell.py up to the import
+    of the proofreader, i.e. including the --include work list): four files
+    in a scratch directory, inclusion graphs from a catalogue (chains, a
+    cycle, self-inclusion, a file included twice, a name without .tex),
+    every non-empty list of <= 2 root files (also a duplicate), with and
+    without --skip; expected: the files reachable from the roots, each once,
+    in discovery order, none that matches --skip (roots included)"""
+    import itertools
+    import os
+    import re
+    import shutil
+    import tempfile
+    from props import shellenv
+    names = ['m.tex', 'a.tex', 'b.tex', 'f1.tex']
+    graphs = [
+        {'m.tex': ['a'], 'a.tex': ['b'], 'b.tex': [], 'f1.tex': ['b']},
+        {'m.tex': ['a', 'f1'], 'a.tex': ['m'], 'b.tex': [],
+         'f1.tex': ['b.tex', 'a']},
+        {'m.tex': ['m', 'b', 'b'], 'a.tex': [], 'b.tex': ['f1'],
+         'f1.tex': ['a']},
+    ]
+    roots = [[x] for x in names] + [list(t) for t in itertools.permutations(
+        names, 2) if (names.index(t[0]) + 2 * names.index(t[1]) + seed) % 3
+        == 0] + [['m.tex', 'm.tex'], ['f1.tex', 'm.tex']]
+    n, fails = 0, []
+    cwd = os.getcwd()
+    tmp = tempfile.mkdtemp(prefix='c18_incl_')
+    try:
+        os.chdir(tmp)
+        for gr in graphs:
+            for f, incl in gr.items():
+                with open(f, 'w') as fh:
+                    fh.write('Text of %s.\n' % f + ''.join(
+                        '\\input{%s}\n' % x for x in incl))
+            for rt in roots:
+                for skip in (None, 'f.*', 'a\\.tex|b'):
+                    def skipped(f):
+                        return bool(skip) and re.fullmatch(skip, f) is not None
+                    todo, want = list(rt), []
+                    while todo:
+                        f = todo.pop(0)
+                        if f in want or skipped(f):
+                            continue
+                        want.append(f)
+                        for x in gr[f]:
+                            x = x if x.endswith('.tex') else x + '.tex'
+                            if x not in want + todo and not skipped(x):
+                                todo.append(x)
+                    argv = ['--no-config', '--include'] + (
+                        ['--skip', skip] if skip else []) + rt
+                    n += 1
+                    try:
+                        g = shellenv.startup(argv)
+                        got = list(g['cmdline'].file)
+                    except BaseException as e:      # noqa
+                        got = 'exception %r' % (e,)
+                    if got != want:
+                        fails.append({'files': gr, 'command': argv,
+                                      'checked': got, 'expected': want})
+                        if len(fails) >= 3:
+                            break
+                if len(fails) >= 3:
+                    break
+            if len(fails) >= 3:
+                break
+    finally:
+        os.chdir(cwd)
+        shutil.rmtree(tmp, ignore_errors=True)
+    return {'name': 'include-work-list-on-small-graphs', 'bounded': True,
+            'bound': '3 graphs over 4 files x %d root lists x 3 skip '
+            'patterns' % len(roots), 'evaluations': n, 'failures': fails}
+
+
+QUICK_BOUNDED = [extraction_small_documents, skip_pattern_bounded,
+                 include_graphs_bounded]
 
 TRUSTED = [
     'mechanical extraction (pyvc/front.py lift_include_loop): the module-level statements of yalafi/shell/shell.py from '
